@@ -204,4 +204,61 @@ theorem c06_block (env : Env) (s : App) (dt : Int) (votes : List Vote) (evid : L
       | error h => rfl
       | ok r => rfl
 
+/-! ### the governance route: proposals executed by x/gov's EndBlocker -/
+
+/-- **C06 for a proposal**: a passed proposal whose execution fails — at any message — leaves the state exactly as it
+    was: x/gov runs the messages on a branch of the state and drops it (`runGov`) -/
+theorem c06_gov_proposal (env : Env) (sg : Signer) (ms : List Msg) (rest : List (List Msg)) (s : App) (acc : List TxR)
+    (hfail : ∀ s', handleList env.lim s sg ms ≠ .ok s') :
+    (runGov env sg (ms :: rest) s acc).2 = (runGov env sg rest s acc).2 := by
+  simp only [runGov]
+  cases hh : handleList env.lim s sg ms with
+  | ok s' => exact absurd hh (hfail s')
+  | err e => exact runGov_state_acc env sg rest s _ _
+  | unknown => exact runGov_state_acc env sg rest s _ _
+
+theorem runGov_append (env : Env) (sg : Signer) : ∀ (gpre gpost : List (List Msg)) (s : App) (acc : List TxR),
+    runGov env sg (gpre ++ gpost) s acc = runGov env sg gpost (runGov env sg gpre s acc).2 (runGov env sg gpre s acc).1
+  | [], _, _, _ => rfl
+  | ms :: gpre, gpost, s, acc => by
+    simp only [List.cons_append, runGov]
+    cases handleList env.lim s sg ms with
+    | ok s' => exact runGov_append env sg gpre gpost s' _
+    | err e => exact runGov_append env sg gpre gpost s _
+    | unknown => exact runGov_append env sg gpre gpost s _
+
+/-- **C06d**: the block in which x/gov executes a failing proposal commits the same state and returns the same validator
+    updates as the block without that proposal (the transactions, and the proposals executed before and after it, are
+    untouched) -/
+theorem c06_block_gov (env : Env) (s : App) (dt : Int) (votes : List Vote) (evid : List Evid) (txs : List Tx) (ga : Bool)
+    (gpre gpost : List (List Msg)) (ms : List Msg)
+    (hfail : ∀ s1 sg s', handleList env.lim s1 sg ms ≠ .ok s') :
+    (block env s ⟨dt, votes, txs, evid, gpre ++ ms :: gpost, ga⟩).map (fun r => (r.1.updates, r.2)) =
+    (block env s ⟨dt, votes, txs, evid, gpre ++ gpost, ga⟩).map (fun r => (r.1.updates, r.2)) := by
+  unfold block beforeEnd
+  simp only [govSigner]
+  cases slashingBegin votes { s with height := s.height + 1, time := s.time + dt } with
+  | error h => rfl
+  | ok s0 =>
+    simp only
+    cases evidenceBegin evid s0 with
+    | error h => rfl
+    | ok s1 =>
+    simp only
+    cases poaBegin env.lim s1 with
+    | error h => rfl
+    | ok s2 =>
+      simp only
+      rw [runGov_append env _ gpre (ms :: gpost), runGov_append env _ gpre gpost]
+      have hst := c06_gov_proposal env (if ga = true then Signer.admin else Signer.op 999998) ms gpost
+        (runGov env (if ga = true then Signer.admin else Signer.op 999998) gpre (runTxs env txs s2 [] []).2 (runTxs env txs s2 [] []).1).2
+        (runGov env (if ga = true then Signer.admin else Signer.op 999998) gpre (runTxs env txs s2 [] []).2 (runTxs env txs s2 [] []).1).1
+        (fun s' => hfail _ _ s')
+      rw [hst]
+      cases stakingEndBlock (runGov env (if ga = true then Signer.admin else Signer.op 999998) gpost
+          (runGov env (if ga = true then Signer.admin else Signer.op 999998) gpre (runTxs env txs s2 [] []).2 (runTxs env txs s2 [] []).1).2
+          (runGov env (if ga = true then Signer.admin else Signer.op 999998) gpre (runTxs env txs s2 [] []).2 (runTxs env txs s2 [] []).1).1).2 with
+      | error h => rfl
+      | ok r => rfl
+
 end PoaVerif.Props.C06
